@@ -105,6 +105,7 @@ type StackCfg struct {
 
 type EndpointCfg struct {
 	Name          string        `json:"name"`
+	CfgName       string        `json:"cfg_name,omitempty"` // the name Olla's configuration gives the endpoint, when it differs (nothing keeps two endpoints from sharing one)
 	Host          string        `json:"host"` // "b1:8000"
 	BasePath      string        `json:"base_path,omitempty"`
 	Type          string        `json:"type"`
@@ -213,4 +214,11 @@ type EnvEvent struct {
 	At     time.Duration `json:"at"`
 	Host   string        `json:"host"`
 	Action string        `json:"action"` // crash | restart | refuse | blackhole | up
+}
+
+func (e EndpointCfg) cfgName() string {
+	if e.CfgName != "" {
+		return e.CfgName
+	}
+	return e.Name
 }
